@@ -1,5 +1,142 @@
-import ChumskyModel.Model.Spec
+/-
+  C08 — error recovery is transparent on success, loud on failure, and never silent.
+-/
+import ChumskyModel.Proofs.Lemmas.Top
+set_option linter.unusedSimpArgs false
 namespace Chumsky
-theorem placeholder_C08 : True := trivial
-#print axioms placeholder_C08
+
+/-- **C08 (refinement).** `recover_with` with each strategy, arbitrarily nested, refines the recovery reading
+    (this is the master refinement; restated for the three recovery constructors so it cannot be weakened silently). -/
+theorem c08_refines (n : Nat) (env : Env) (m : Mode) (st : St) (hm : env.memoOn = false) (a r skip until_ : G) (fb : Val) :
+    Refines m st.errs st.ctx (run n env m (.recoverVia a r) st) (peg n env (.recoverVia a r) st.ss st.ctx) ∧
+    Refines m st.errs st.ctx (run n env m (.recoverSkipUntil a skip until_ fb) st)
+      (peg n env (.recoverSkipUntil a skip until_ fb) st.ss st.ctx) ∧
+    Refines m st.errs st.ctx (run n env m (.recoverSkipRetry a skip until_) st)
+      (peg n env (.recoverSkipRetry a skip until_) st.ss st.ctx) :=
+  ⟨run_refines n env m _ st hm, run_refines n env m _ st hm, run_refines n env m _ st hm⟩
+
+/-! ### the recovery reading -/
+
+/-- transparent wherever the parser succeeds (all three strategies) -/
+theorem c08_transparent (n : Nat) (env : Env) (a r skip until_ : G) (fb : Val) (s : SS) (ctx : Val) {v s' em}
+    (h : peg n env a s ctx = .ok v s' em) :
+    peg (n + 1) env (.recoverVia a r) s ctx = .ok v s' em ∧
+    peg (n + 1) env (.recoverSkipUntil a skip until_ fb) s ctx = .ok v s' em ∧
+    peg (n + 1) env (.recoverSkipRetry a skip until_) s ctx = .ok v s' em := by
+  simp [peg, pegStep, h]
+
+/-- where the parser fails and the strategy succeeds: the strategy's output, its emissions, plus exactly one
+    extra reported error (emitted last, at the position the strategy ended) -/
+theorem c08_via_recovers (n : Nat) (env : Env) (a r : G) (s : SS) (ctx : Val) {v s1 em}
+    (ha : peg n env a s ctx = .fail) (hr : peg n env r s ctx = .ok v s1 em) :
+    peg (n + 1) env (.recoverVia a r) s ctx = .ok v s1 (em ++ [.recovered s1.pos]) := by
+  simp [peg, pegStep, ha, hr]
+
+/-- where both fail the combinator fails (and, by `c05_atomic`, the caller's state is restorable) -/
+theorem c08_via_both_fail (n : Nat) (env : Env) (a r : G) (s : SS) (ctx : Val)
+    (ha : peg n env a s ctx = .fail) (hr : peg n env r s ctx = .fail) :
+    peg (n + 1) env (.recoverVia a r) s ctx = .fail := by
+  simp [peg, pegStep, ha, hr]
+
+/-- **never silent.** An error-free result contains no recovered output: in the reading of an error-free accepted
+    parse no `recovered` emission occurs, i.e. no recovery branch was taken on the surviving path. -/
+theorem c08_never_silent (n : Nat) (env : Env) (m : Mode) (g : G) (hm : env.memoOn = false) (r : ParseResult) (f : St)
+    (h : parseTop n env m g = .result r f) (v : Val) (ho : r.output = some v) (he : r.errs = []) :
+    ∃ v' s, pegTop n env g = .ok v' s [] := by
+  have ht := parseTop_refines n env m g hm
+  rw [h] at ht
+  cases hp : pegTop n env g <;> rw [hp] at ht <;> simp only [TopRefines] at ht
+  · rename_i v' s em
+    obtain ⟨_, _, h3, h4⟩ := ht
+    rw [he] at h4
+    have : f.errs = [] := by simpa using h4.symm
+    rw [this] at h3
+    have hem : em = [] := by
+      cases em with
+      | nil => rfl
+      | cons e es => simp [EmsRel] at h3
+    subst hem
+    exact ⟨v', s, rfl⟩
+  · rw [ho] at ht; simp at ht
+
+/-- `skip_until`, one step: give `until` the first chance; only if it fails skip one step and go on -/
+theorem c08_skip_until_step (P : SRunner) (env : Env) (ctx : Val) (skip until_ : G) (fb : Val) (fuel : Nat) (s : SS)
+    (em : List Emis) :
+    sSkipUntil P env ctx skip until_ fb (fuel + 1) s em =
+      match P env until_ s ctx with
+      | .ok _ s1 em1 => .ok fb s1 (em ++ em1 ++ [.recovered s1.pos])
+      | .panic w => .panic w
+      | .oof => .oof
+      | .fail =>
+        match P env skip s ctx with
+        | .ok _ s2 em2 => sSkipUntil P env ctx skip until_ fb fuel s2 (em ++ em2)
+        | .fail => .fail
+        | .panic w => .panic w
+        | .oof => .oof := rfl
+
+/-- `k` successful skip steps, `until` failing before each of them -/
+inductive SkipPath (P : SRunner) (env : Env) (ctx : Val) (skip until_ : G) : Nat → SS → SS → Prop
+  | zero (s) : SkipPath P env ctx skip until_ 0 s s
+  | succ {k s s1 s2 v e} : P env until_ s ctx = .fail → P env skip s ctx = .ok v s1 e →
+      SkipPath P env ctx skip until_ k s1 s2 → SkipPath P env ctx skip until_ (k + 1) s s2
+
+/-- **minimality.** `skip_until` consumes the fewest skip steps after which `until` matches: if it succeeds,
+    there is a `k` such that `until` failed before each of the first `k` skip steps and matches after them. -/
+theorem c08_skip_until_min (P : SRunner) (env : Env) (ctx : Val) (skip until_ : G) (fb : Val) :
+    ∀ (fuel : Nat) (s : SS) (em : List Emis) {v s' em'},
+      sSkipUntil P env ctx skip until_ fb fuel s em = .ok v s' em' →
+      ∃ k s0 vu eu, SkipPath P env ctx skip until_ k s s0 ∧ P env until_ s0 ctx = .ok vu s' eu ∧ v = fb := by
+  intro fuel
+  induction fuel with
+  | zero => intro s em v s' em' h; simp [sSkipUntil] at h
+  | succ fuel ih =>
+    intro s em v s' em' h
+    rw [c08_skip_until_step] at h
+    cases hu : P env until_ s ctx <;> rw [hu] at h <;> simp only at h <;> try (simp at h)
+    · rename_i vu s1 eu
+      obtain ⟨h1, h2, _⟩ := h
+      subst h1 h2
+      exact ⟨0, s, vu, eu, .zero s, hu, rfl⟩
+    · cases hs : P env skip s ctx <;> rw [hs] at h <;> simp only at h <;> try (simp at h)
+      rename_i vs s2 es
+      obtain ⟨k, s0, vu, eu, hp, hu', hv⟩ := ih s2 _ h
+      exact ⟨k + 1, s0, vu, eu, .succ hu hs hp, hu', hv⟩
+
+/-! ### which error is reported (machine level) -/
+
+/-- the one extra error is the pending primary error right after the parser failed — "what the parse would have
+    reported had the failure been final" (that this is the furthest/merged failure is C06) -/
+theorem c08_recovered_error_is_pending (n : Nat) (env : Env) (m : Mode) (a r : G) (st st1 st3 : St) (e : Loc) (v : Val)
+    (ha : run n env m a st = .fail st1) (halt : st1.alt = some e)
+    (hr : run n env m r { st1.rewind st.save with alt := none } = .ok v st3) :
+    run (n + 1) env m (.recoverVia a r) st = .ok v (st3.emit st3.pos e.err) := by
+  simp only [run, step, ha]
+  have : (st1.rewind st.save).alt = some e := by simp [halt]
+  simp only [this, hr]
+
+/-- where both fail, the pending error is put back and the position is restored -/
+theorem c08_both_fail_machine (n : Nat) (env : Env) (m : Mode) (a r : G) (st st1 st3 : St) (e : Loc)
+    (ha : run n env m a st = .fail st1) (halt : st1.alt = some e)
+    (hr : run n env m r { st1.rewind st.save with alt := none } = .fail st3) :
+    run (n + 1) env m (.recoverVia a r) st = .fail ({ st3 with alt := some e }.rewind st.save) := by
+  simp only [run, step, ha]
+  have : (st1.rewind st.save).alt = some e := by simp [halt]
+  simp only [this, hr]
+
+/-- non-vacuity: skip_until skips exactly two tokens before `until` matches, reporting the original failure -/
+example :
+    (match parseTop 8 { toks := [120, 121, 98], memoOn := false } .emit
+        (.recoverSkipUntil (.just [97]) .any (.just [98]) (.nat 7)) with
+      | .result r f => (r.output, r.errs, f.pos)
+      | _ => (none, [], 0)) = (some (.nat 7), [⟨(0, 1), .ef [.tok 97] (some 120), []⟩], 3) := by
+  decide +kernel
+
+#print axioms c08_refines
+#print axioms c08_transparent
+#print axioms c08_via_recovers
+#print axioms c08_via_both_fail
+#print axioms c08_never_silent
+#print axioms c08_skip_until_min
+#print axioms c08_recovered_error_is_pending
+#print axioms c08_both_fail_machine
 end Chumsky
